@@ -203,7 +203,7 @@ def dedup_behaviours(raw):
             b = json.loads(j)
         except ValueError:
             continue
-        key = hashlib.sha1(json.dumps([(s["act"], s["arg"]) for s in b], sort_keys=True).encode()).hexdigest()
+        key = hashlib.sha1(json.dumps([(s.get("act") or s.get("call"), s["arg"]) for s in b], sort_keys=True).encode()).hexdigest()
         if key in seen:
             continue
         seen.add(key)
